@@ -95,30 +95,40 @@ theorem notifyAll_inv (s : FSt) (h : FInv s) : FInv (notifyAll s) := by
   · constructor <;> simp
     exact h.act
 
+theorem dispatchCore_inv (s : FSt) (new : List Msg) (h : FInv s) : FInv (dispatchCore s new) := by
+  unfold dispatchCore
+  apply notifyAll_inv
+  generalize hc : sortCluster (s.cluster ++ new) = c
+  have hsp := assign_spec s.workers c { s with cluster := c, enq := s.enq ++ new } h.nodup
+  have hw := assign_workers s.workers c { s with cluster := c, enq := s.enq ++ new } h.nodup rfl
+  obtain ⟨_, _, _, _, h5, h6, h7, h8, _, h10, h11⟩ := hsp
+  have hsub : ∀ w, w ∈ s.workers.drop c.length → w ∈ s.workers ∧ w ∉ s.workers.take c.length := by
+    intro w hw'
+    refine ⟨List.mem_of_mem_drop hw', ?_⟩
+    intro ht
+    have hnd := h.nodup
+    rw [← List.take_append_drop c.length s.workers, List.nodup_append] at hnd
+    exact hnd.2.2 w ht w hw' rfl
+  constructor
+  · intro w hw'; rw [hw] at hw'; rw [h11]; exact h.alive w (hsub w hw').1
+  · intro w hw'; rw [hw] at hw'
+    rw [(h10 w (hsub w hw').2).2]; exact h.idle w (hsub w hw').1
+  · rw [hw]; exact List.Nodup.sublist (List.drop_sublist _ _) h.nodup
+  · intro w hw'; rw [hw] at hw'
+    rw [h8, h7, h6]; exact h.rev w (hsub w hw').1
+  · rw [h5, h7]; exact h.act
+
+theorem preArchive_inv (s : FSt) (new : List Msg) (h : FInv s) : FInv (preArchive s new) := by
+  unfold preArchive
+  split
+  · exact ⟨h.alive, h.idle, h.nodup, h.rev, fun c => by simp at c⟩
+  · exact h
+
 theorem dispatch_inv (s : FSt) (new : List Msg) (h : FInv s) : FInv (dispatch s new) := by
   unfold dispatch
   split
   · exact h
-  · apply notifyAll_inv
-    generalize hc : sortCluster (s.cluster ++ new) = c
-    have hsp := assign_spec s.workers c { s with cluster := c, enq := s.enq ++ new } h.nodup
-    have hw := assign_workers s.workers c { s with cluster := c, enq := s.enq ++ new } h.nodup rfl
-    obtain ⟨_, _, _, _, h5, h6, h7, h8, _, h10, h11⟩ := hsp
-    have hsub : ∀ w, w ∈ s.workers.drop c.length → w ∈ s.workers ∧ w ∉ s.workers.take c.length := by
-      intro w hw'
-      refine ⟨List.mem_of_mem_drop hw', ?_⟩
-      intro ht
-      have hnd := h.nodup
-      rw [← List.take_append_drop c.length s.workers, List.nodup_append] at hnd
-      exact hnd.2.2 w ht w hw' rfl
-    constructor
-    · intro w hw'; rw [hw] at hw'; rw [h11]; exact h.alive w (hsub w hw').1
-    · intro w hw'; rw [hw] at hw'
-      rw [(h10 w (hsub w hw').2).2]; exact h.idle w (hsub w hw').1
-    · rw [hw]; exact List.Nodup.sublist (List.drop_sublist _ _) h.nodup
-    · intro w hw'; rw [hw] at hw'
-      rw [h8, h7, h6]; exact h.rev w (hsub w hw').1
-    · rw [h5, h7]; exact h.act
+  · exact dispatchCore_inv _ new (preArchive_inv s new h)
 
 theorem step_inv (s : FSt) (op : FOp) (h : FInv s) (hok : OpOk s op) : FInv (step s op) := by
   cases op with
@@ -205,6 +215,7 @@ theorem step_inv (s : FSt) (op : FOp) (h : FInv s) (hok : OpOk s op) : FInv (ste
   | setActive b =>
     simp only [step]
     exact ⟨h.alive, h.idle, h.nodup, h.rev, fun c => hok c⟩
+  | setArchive b => exact ⟨h.alive, h.idle, h.nodup, h.rev, h.act⟩
 
 theorem run_inv (s : FSt) (ops : List FOp) (h : FInv s) (hv : ValidRun s ops) : FInv (run s ops) := by
   unfold run
@@ -257,9 +268,7 @@ theorem map_fst_zip_sub {α β : Type} (l : List α) (m : List β) :
 
 
 theorem dispatch_eq (s : FSt) (new : List Msg) (ha : s.active = true) :
-    dispatch s new =
-      notifyAll (assign s.workers (sortCluster (s.cluster ++ new))
-        { s with cluster := sortCluster (s.cluster ++ new), enq := s.enq ++ new }) := by
+    dispatch s new = dispatchCore (preArchive s new) new := by
   unfold dispatch
   rw [if_neg (by simp [ha])]
 
@@ -267,5 +276,49 @@ theorem notifyAll_active (s : FSt) (ha : s.active = true) :
     notifyAll s = { s with log := s.log ++ s.workers.map (fun w => (w, Wire.wait)) } := by
   unfold notifyAll
   rw [if_pos ha]
+
+
+theorem notifyAll_inactive (s : FSt) (ha : s.active = false) :
+    notifyAll s = { s with log := s.log ++ s.workers.map (fun w => (w, Wire.abort))
+                           conn := fun u => if u ∈ s.workers then false else s.conn u
+                           workers := [] } := by
+  unfold notifyAll
+  rw [if_neg (by simp [ha])]
+
+/-- the log after the core of a tick: a task to each of the first `min` idle workers, then a
+    "wait" (pipeline active) or an "abort" (not active) to every worker still idle -/
+theorem dispatchCore_log (s : FSt) (new : List Msg) (h : FInv s) :
+    (dispatchCore s new).log =
+      s.log ++ (s.workers.zip (sortCluster (s.cluster ++ new))).map (fun p => (p.1, Wire.task p.2))
+        ++ (s.workers.drop (sortCluster (s.cluster ++ new)).length).map
+            (fun w => (w, if s.active then Wire.wait else Wire.abort)) := by
+  unfold dispatchCore
+  generalize sortCluster (s.cluster ++ new) = c
+  have hsp := assign_spec s.workers c { s with cluster := c, enq := s.enq ++ new } h.nodup
+  have hw := assign_workers s.workers c { s with cluster := c, enq := s.enq ++ new } h.nodup rfl
+  have hact := hsp.2.2.2.2.1
+  have hlog := hsp.1
+  by_cases ha : s.active = true
+  · rw [notifyAll_active _ (by rw [hact]; exact ha)]
+    dsimp only
+    rw [hlog, hw]; simp [ha]
+  · have ha' : s.active = false := by cases hs : s.active <;> simp_all
+    rw [notifyAll_inactive _ (by rw [hact]; exact ha')]
+    dsimp only
+    rw [hlog, hw]; simp [ha']
+
+theorem sortCluster_nil : sortCluster [] = [] := rfl
+
+theorem assign_nil (ws : List Nat) (s : FSt) : assign ws [] s = s := by
+  cases ws <;> rfl
+
+
+theorem dispatchCore_cluster (s : FSt) (new : List Msg) (h : FInv s) :
+    (dispatchCore s new).cluster = (sortCluster (s.cluster ++ new)).drop s.workers.length := by
+  unfold dispatchCore
+  generalize sortCluster (s.cluster ++ new) = c
+  have hcl := assign_cluster s.workers c { s with cluster := c, enq := s.enq ++ new } h.nodup rfl
+  unfold notifyAll
+  split <;> exact hcl
 
 end DawgieVerif.Farm
